@@ -237,6 +237,20 @@ def i_POPFQ(i, fmap):
     pop(fmap, rflags)
 
 
+def i_LAHF(i, fmap):
+    fmap[rip] = fmap[rip] + i.length
+    x = fmap(composer([cf, bit1, pf, bit0, af, bit0, zf, sf]))
+    fmap[ah] = x
+
+
+def i_SAHF(i, fmap):
+    fmap[rip] = fmap[rip] + i.length
+    fmap[rflags[0:8]] = fmap(ah)
+    fmap[rflags[1:2]] = bit1
+    fmap[rflags[3:4]] = bit0
+    fmap[rflags[5:6]] = bit0
+
+
 # ------------------------------------------------------------------------------
 def _cmps_(i, fmap, l):
     counter, d, s = (ecx, edi, esi) if i.misc["adrsz"] else (rcx, rdi, rsi)
